@@ -215,6 +215,7 @@ theorem filter_eq_run {lk : Lookup} (hlk : FourLetter lk) (rule : Rule) (ix : In
   simp only []
   unfold filter
   rw [if_neg (by omega), if_neg (by omega)]
+  unfold scanFrom
   simp only []
   rw [query_calls_any hlk ix.k hk hk2 q, forEachKmer_err lk ix.k q 0 q.length (by omega) (Nat.le_refl _)]
   simp only [Bool.false_eq_true, if_false, hrule, if_true]
